@@ -256,6 +256,21 @@ theorem edge_path_valid (inputs : List (List Ix)) (ep : List Ix) (hnd : ep.Nodup
     rw [hcur] at this
     simpa [specInit] using this
 
+/-- **`from_path(edge_path=…)`** builds the tree of the leaf-set definition: for every duplicate-free
+    sequence of indices occurring in the inputs, the tree made from the edge path is the tree made
+    from the SSA path `specEdge inputs ep` — each index in turn merges *all* current tensors that
+    carry it, whether or not the index is an output index (the output is not an argument). -/
+theorem from_edge_path_eq (inputs : List (List Ix)) (ep : List Ix) (hnd : ep.Nodup)
+    (hin : ∀ ix ∈ ep, ∃ t ∈ inputs, ix ∈ t) :
+    fromEdgePath ep inputs = fromSsaPath inputs.length (specEdge inputs ep) := by
+  unfold fromEdgePath
+  rw [(edge_path_valid inputs ep hnd hin).1]
+  rfl
+
+/-- an index carried by two tensors generates its step also when it is an output (batch) index:
+    `from_path(['ab','ac'], output='a', edge_path=['a'])` creates the node `{0,1}` -/
+example : fromEdgePath [0] [[0, 1], [0, 2]] = some ([[0, 1]], [[0, 1]]) := by decide
+
 /-- the guard is needed: a repeated index raises `KeyError` -/
 theorem edge_path_repeated_index_raises :
     edgePathToSsa [1, 1] [[0, 1], [1, 2]] = none := by decide
